@@ -68,6 +68,13 @@ func (m *MonC05) measure(ctx sdk.Context) map[uint64]*poolVal {
 			if a.Token.Amount.LT(v.minRes) {
 				v.minRes = a.Token.Amount
 			}
+			// "a reserve taken to zero" is judged on what the pool's address really holds as well: a
+			// record that was not updated would hide it (F22)
+			if addr, err := sdk.AccAddressFromBech32(p.Address); err == nil {
+				if b := app.BankKeeper.GetBalance(ctx, addr, a.Token.Denom).Amount; b.LT(v.minRes) {
+					v.minRes = b
+				}
+			}
 			if p.PoolParams.UseOracle {
 				bal := a.Token.Amount
 				if acc := app.AccountedPoolKeeper.GetAccountedBalance(ctx, p.PoolId, a.Token.Denom); acc.IsPositive() {
